@@ -4,6 +4,7 @@
 // (vacuum::mark_blob_chain vs BlobStore::read_direct through one chain spec).
 // Bodies extracted from nervusdb-storage/src/{csr,vacuum,blob_store}.rs.
 //@unit c28_vacuum
+//@rlimit 60
 //@property C28
 use vstd::prelude::*;
 use std::fs::File;
@@ -208,18 +209,16 @@ pub proof fn lemma_le64s_push(s: Seq<u64>, k: int)
 //@|                ==> reach(final(reachable)).contains(#[trigger] csr_page_at(pager.page(meta_page_id.0 as int), k)),
 //@|     // the only reasons to fail: the page cannot be read, or it does not hold the layout
 //@|     r is Err ==> r->Err_0 is Io || r->Err_0 is PageIdOutOfRange || r->Err_0 is PageNotAllocated || !csr_valid(pager.page(meta_page_id.0 as int)),
-//@prewrite "if meta[0..8] != META_MAGIC {" => "if v_slice_ne_array8(v_page_range(&meta, 0, 8), &META_MAGIC) {"
-//@prewrite "meta[off..off + 4].try_into().unwrap()" => "v_slice_to_array(v_page_range(&meta, off, off + 4))"
-//@prewrite "meta[off..off + 8].try_into().unwrap()" => "v_slice_to_array(v_page_range(&meta, off, off + 8))"
+//@prewrite "meta[0..8] != META_MAGIC" => "v_slice_ne_array8(&meta[0..8], &META_MAGIC)"
 //@prewrite "reachable.insert(PageId::new(id));" => "v_reach_insert(reachable, PageId::new(id));"
-//@proof before 1 "let mut page_count = 0usize;"
+//@proof before 1 "let needed = "
 //@| assert(META_MAGIC@ =~= csr_magic());
-//@loop 1
+//@loop? "while off < HEADER_SIZE"
 //@| invariant 64 <= off <= 80, (off - 64) % 4 == 0, meta@ == pager.page(meta_page_id.0 as int), meta@.len() == 8192,
 //@|     page_count == (if off >= 68 { csr_count(meta@, 0) } else { 0 }) + (if off >= 72 { csr_count(meta@, 1) } else { 0 })
 //@|                 + (if off >= 76 { csr_count(meta@, 2) } else { 0 }) + (if off >= 80 { csr_count(meta@, 3) } else { 0 }),
 //@| decreases 80 - off
-//@loop 2 iter it2
+//@loop "for _ in 0..page_count" iter it2
 //@| invariant meta@ == pager.page(meta_page_id.0 as int), meta@.len() == 8192, page_count == csr_total(meta@), 80 + 8 * page_count <= 8192,
 //@|     off == 80 + 8 * it2.index@, it2.index@ <= page_count,
 //@|     reach(old(reachable)).subset_of(reach(reachable)),
@@ -333,8 +332,6 @@ pub open spec fn blob_data(pager: &Pager, start: u64, n: nat) -> Seq<u8>
 //@prewrite "mut page_id: u64," => "page_id0: u64,"
 //@prewrite "    while page_id != 0" => "    let mut page_id = page_id0; let ghost mut kk: nat = 0;\n    while page_id != 0"
 //@prewrite "if !reachable.insert(pid) {" => "if !v_reach_insert(reachable, pid) {"
-//@prewrite "page[0..8].try_into().unwrap()" => "v_slice_to_array(v_page_range(&page, 0, 8))"
-//@prewrite "page[8..10].try_into().unwrap()" => "v_slice_to_array(v_page_range(&page, 8, 10))"
 //@prewrite "        page_id = next_page_id;" => "        page_id = next_page_id; proof { kk = kk + 1; }"
 //@loop 1
 //@| invariant reach(old(reachable)).subset_of(reach(reachable)), page_id == chain_at(pager, page_id0, kk),
@@ -354,9 +351,6 @@ impl BlobStore {
 //@|         && r->Ok_0@ == blob_data(pager, page_id0, n),
 //@prewrite "mut page_id: u64" => "page_id0: u64"
 //@prewrite "        while page_id != 0" => "        let mut page_id = page_id0; let ghost mut kk: nat = 0;\n        while page_id != 0"
-//@prewrite "page[0..8].try_into().unwrap()" => "v_slice_to_array(v_page_range(&page, 0, 8))"
-//@prewrite "page[8..10].try_into().unwrap()" => "v_slice_to_array(v_page_range(&page, 8, 10))"
-//@prewrite "out.extend_from_slice(&page[10..10 + data_len]);" => "out.extend_from_slice(v_page_range(&page, 10, 10 + data_len));"
 //@prewrite "            page_id = next_page_id;" => "            page_id = next_page_id; proof { kk = kk + 1; }"
 //@loop 1
 //@| invariant page_id == chain_at(pager, page_id0, kk), out@ == blob_data(pager, page_id0, kk),
@@ -458,6 +452,152 @@ pub open spec fn seg_marked(pager: &Pager, meta: u64, s: Set<u64>) -> bool {
 //@|     && (pager.meta.index_catalog_root != 0 ==> s.contains(pager.meta.index_catalog_root))
 //@|     && (roots.stats_root != 0 ==> exists|n: nat| chain_at(pager, roots.stats_root, n) == 0 && forall|k: nat| k < n ==> s.contains(#[trigger] chain_at(pager, roots.stats_root, k))) }),
 //@end
+
+// ================================================================== the copy: Pager::write_vacuum_copy
+//@item nervusdb-storage/src/pager.rs const META_PAGE_ID
+//@item nervusdb-storage/src/pager.rs const BITMAP_PAGE_ID
+//@item nervusdb-storage/src/pager.rs const FIRST_DATA_PAGE_ID
+//@item nervusdb-storage/src/pager.rs const BITMAP_BITS
+//@item nervusdb-storage/src/pager.rs struct VacuumCopyStats keep-derive
+
+pub proof fn lemma_bit_ops(b: u8, k: u8)
+    requires k < 8
+    ensures
+        byte_bit(b | (1u8 << k), k as int),
+        !byte_bit(b & !(1u8 << k), k as int),
+        forall|j: u8| j < 8 && j != k ==> byte_bit(b | (1u8 << k), j as int) == byte_bit(b, j as int),
+        forall|j: u8| j < 8 && j != k ==> byte_bit(b & !(1u8 << k), j as int) == byte_bit(b, j as int),
+        !byte_bit(0u8, k as int),
+{
+    assert((((b | (1u8 << k)) >> k) & 1u8) == 1u8) by (bit_vector) requires k < 8;
+    assert((((b & !(1u8 << k)) >> k) & 1u8) != 1u8) by (bit_vector) requires k < 8;
+    assert(((0u8 >> k) & 1u8) != 1u8) by (bit_vector) requires k < 8;
+    assert forall|j: u8| j < 8 && j != k implies byte_bit(b | (1u8 << k), j as int) == byte_bit(b, j as int) by {
+        assert((((b | (1u8 << k)) >> j) & 1u8) == ((b >> j) & 1u8)) by (bit_vector) requires k < 8, j < 8, j != k;
+    }
+    assert forall|j: u8| j < 8 && j != k implies byte_bit(b & !(1u8 << k), j as int) == byte_bit(b, j as int) by {
+        assert((((b & !(1u8 << k)) >> j) & 1u8) == ((b >> j) & 1u8)) by (bit_vector) requires k < 8, j < 8, j != k;
+    }
+}
+impl Bitmap {
+//@extract nervusdb-storage/src/pager.rs Bitmap::set_bit
+//@| requires bit < 65536
+//@| ensures final(self).bit(bit as int) == value,
+//@|         forall|j: int| 0 <= j < 65536 && j != bit ==> final(self).bit(j) == old(self).bit(j),
+//@proof after 1 "let mask = 1u8 << (bit % 8);"
+//@| reveal(Bitmap::bit);
+//@| lemma_bit_ops(self.data[byte_index as int], (bit % 8) as u8);
+//@proof before 1 "=}" raw
+//@| proof {
+//@|     reveal(Bitmap::bit);
+//@|     assert forall|j: int| 0 <= j < 65536 && j != bit implies self.bit(j) == old(self).bit(j) by {
+//@|         if j / 8 == byte_index as int { assert(((j % 8) as u8) != (bit % 8) as u8); assert(((j % 8) as u8) < 8); }
+//@|     }
+//@| }
+//@end
+//@extract nervusdb-storage/src/pager.rs Bitmap::set_allocated
+//@| requires page_id.0 < 65536
+//@| ensures final(self).bit(page_id.0 as int) == allocated,
+//@|         forall|j: int| 0 <= j < 65536 && j != page_id.0 ==> final(self).bit(j) == old(self).bit(j),
+//@end
+// a fresh bitmap has exactly the two header pages marked
+//@extract nervusdb-storage/src/pager.rs Bitmap::new ret r
+//@| ensures r.bit(0) && r.bit(1), forall|j: int| 2 <= j < 65536 ==> !r.bit(j),
+//@proof before 1 "bitmap.set_allocated(META_PAGE_ID, true);" raw
+//@| proof {
+//@|     reveal(Bitmap::bit);
+//@|     assert forall|j: int| 0 <= j < 65536 implies !bitmap.bit(j) by { lemma_bit_ops(0u8, (j % 8) as u8); }
+//@| }
+//@end
+}
+impl Meta {
+    //@trusted encode_page: Meta::encode_page returns some page image (layout / round trip: Kani harness c18_meta_roundtrip)
+    #[verifier::external_body]
+    pub fn encode_page(self) -> (r: [u8; PAGE_SIZE])
+    { unimplemented!() }
+}
+//@extract nervusdb-storage/src/pager.rs write_page_raw ret r
+//@| requires page_id.0 < 65536
+//@| ensures
+//@|     file_bytes(final(file)).len() >= file_bytes(old(file)).len(),
+//@|     file_bytes(final(file)).len() <= (if file_bytes(old(file)).len() >= (page_id.0 + 1) * 8192 { file_bytes(old(file)).len() } else { ((page_id.0 + 1) * 8192) as nat }),
+//@|     forall|i: int| 0 <= i < file_bytes(old(file)).len() && i / 8192 != page_id.0 ==> #[trigger] file_bytes(final(file))[i] == file_bytes(old(file))[i],
+//@|     r is Ok ==> file_bytes(final(file)).len() >= (page_id.0 + 1) * 8192
+//@|         && file_bytes(final(file)).subrange(page_id.0 * 8192, page_id.0 * 8192 + 8192) == buf@,
+//@prewrite "file: &File" => "file: &mut File"
+//@prewrite "write_all_at(file, offset, buf).map_err(Error::Io)?;" => "v_write_all_at(file, offset, buf)?;"
+//@end
+
+//@trusted v_set_elems: iterating a BTreeSet visits exactly its elements, each once (std); the loops of write_vacuum_copy iterate this sequence instead of the set itself because this vstd has no comparison model for a user key type (PageId)
+#[verifier::external_body]
+pub fn v_set_elems(s: &BTreeSet<PageId>) -> (r: Vec<PageId>)
+    ensures forall|x: u64| reach(s).contains(x) <==> exists|i: int| 0 <= i < r@.len() && #[trigger] r@[i].0 == x,
+        forall|i: int, j: int| 0 <= i < j < r@.len() ==> r@[i].0 != r@[j].0,
+{ unimplemented!() }
+//@trusted v_create_new: OpenOptions::new().write(true).create_new(true).truncate(false).open(path) yields a new empty file or an I/O error (std)
+#[verifier::external_body]
+pub fn v_create_new(path: &std::path::Path) -> (r: Result<std::fs::File>)
+    ensures r is Ok ==> file_bytes(&r->Ok_0).len() == 0, r is Err ==> r->Err_0 is Io,
+{ unimplemented!() }
+//@trusted v_u64_max: u64::max (Ord::max) is the larger of the two (std)
+pub fn v_u64_max(a: u64, b: u64) -> (r: u64) ensures r == (if a >= b { a } else { b }) { if a >= b { a } else { b } }
+
+/// C28.copy.spec — what the vacuum copy must be: a page store of exactly `next` pages whose bitmap marks
+/// the two header pages and exactly the reachable data pages, whose next_page_id lies above every
+/// reachable page, and in which every reachable data page holds the bytes it held in the source.
+pub open spec fn copy_ok(src: &Pager, out: Seq<u8>, bm: Bitmap, next: u64, s: Set<u64>) -> bool {
+    &&& out.len() == next * 8192 && 2 <= next <= 65536
+    &&& forall|x: u64| s.contains(x) ==> x < next
+    &&& bm.bit(0) && bm.bit(1)
+    &&& forall|q: int| 2 <= q < 65536 ==> (bm.bit(q) <==> s.contains(q as u64))
+    &&& out.subrange(8192, 16384) == bm.data@
+    &&& forall|x: u64| s.contains(x) && x >= 2 ==> #[trigger] out.subrange(x * 8192, x * 8192 + 8192) == src.page(x as int)
+}
+
+impl Pager {
+//@extract nervusdb-storage/src/pager.rs Pager::write_vacuum_copy ret r
+//@| requires self.bytes().len() <= 0x7fff_ffff_ffff_ffff,
+//@| ensures r is Ok ==> 2 <= r->Ok_0.new_next_page_id <= 65536 && forall|x: u64| reach(reachable).contains(x) ==> x < r->Ok_0.new_next_page_id,
+//@prewrite "self.file.metadata()?.len()" => "vfile_len(&self.file)?"
+//@preregex "?max_page_id\.max\(id\)" => "v_u64_max(max_page_id, id)"
+//@preregex "(?s)let out = OpenOptions::new\(\).*?\.open\(target_path\)\?;" => "let mut out = v_create_new(target_path)?;"
+//@prewrite "out.set_len(new_next_page_id.saturating_mul(PAGE_SIZE as u64))?;" => "vfile_set_len(&mut out, new_next_page_id.saturating_mul(PAGE_SIZE as u64))?;"
+//@prewrite "&out, " => "&mut out, "
+//@prewrite "out.sync_data()?;" => "vfile_sync_data(&mut out)?;"
+//@preregex "(?s)if p\.as_u64\(\) < FIRST_DATA_PAGE_ID\.as_u64\(\) \{\s*continue;\s*\}(.*?)\n        \}\n\n        vfile_sync_data" => "if !(p.as_u64() < FIRST_DATA_PAGE_ID.as_u64()) {\1\n        }\n        }\n\n        vfile_sync_data"
+//@proof before 1 "@start" raw
+//@| let elems = v_set_elems(reachable);
+//@preregex "in (it\d): reachable " => "in \1: elems.iter() "
+//@loop 1 iter it1
+//@| invariant max_page_id >= 1, max_page_id < 65536,
+//@|     forall|i: int| 0 <= i < it1.index@ ==> elems@[i].0 < 65536 && elems@[i].0 <= max_page_id,
+//@loop 2 iter it2
+//@| invariant bitmap.bit(0) && bitmap.bit(1),
+//@|     forall|i: int| 0 <= i < elems@.len() ==> elems@[i].0 < 65536,
+//@|     forall|q: int| 2 <= q < 65536 ==> (bitmap.bit(q) <==> exists|i: int| 0 <= i < it2.index@ && #[trigger] elems@[i].0 == q),
+//@loop 3 iter it3
+//@| invariant new_next_page_id <= 65536, file_bytes(&out).len() == new_next_page_id * 8192,
+//@|     forall|i: int| 0 <= i < elems@.len() ==> elems@[i].0 < new_next_page_id,
+//@|     forall|i: int, j: int| 0 <= i < j < elems@.len() ==> elems@[i].0 != elems@[j].0,
+//@|     file_bytes(&out).subrange(8192, 16384) == bitmap.data@,
+//@|     forall|i: int| 0 <= i < it3.index@ && elems@[i].0 >= 2 ==> #[trigger] file_bytes(&out).subrange(elems@[i].0 * 8192, elems@[i].0 * 8192 + 8192) == self.page(elems@[i].0 as int),
+//@proof before 1 "write_page_raw(&out, *p, &page)?;" raw
+//@| let ghost o1 = file_bytes(&out);
+//@proof after 1 "write_page_raw(&out, *p, &page)?;"
+//@| let o2 = file_bytes(&out); let k = it3.index@ as int;
+//@| assert(o2.len() == o1.len());
+//@| assert(o2.subrange(8192, 16384) =~= o1.subrange(8192, 16384));
+//@| assert forall|i: int| 0 <= i < k + 1 && elems@[i].0 >= 2 implies #[trigger] o2.subrange(elems@[i].0 * 8192, elems@[i].0 * 8192 + 8192) == self.page(elems@[i].0 as int) by {
+//@|     if i < k {
+//@|         assert(elems@[i].0 != elems@[k].0);
+//@|         assert(o2.subrange(elems@[i].0 * 8192, elems@[i].0 * 8192 + 8192) =~= o1.subrange(elems@[i].0 * 8192, elems@[i].0 * 8192 + 8192));
+//@|     }
+//@| }
+//@proof before 1 "=Ok(VacuumCopyStats {"
+//@| // C28.copy.spec: the obligation of this function (the copy is a local file: stated here, not in `ensures`)
+//@| assert(copy_ok(self, file_bytes(&out), bitmap, new_next_page_id, reach(reachable)));
+//@end
+}
 
 //@canary|pub proof fn canary_csr_valid(page: Seq<u8>) requires csr_valid(page), csr_total(page) == 3 ensures false {}
 //@canary|pub proof fn canary_fits(m: CsrMeta, page: Seq<u8>) requires m.fits(), m.o.len() == 2, m.ie.len() == 1, page.len() == 8192, page.take(m.layout().len() as int) == m.layout() ensures false {}
